@@ -192,6 +192,31 @@ CLAIMED["C11"] = {
     "technique": "TLC model checking of the walk loop + replay of all generated walks on walk.Generic + trace validation of real walker callbacks against a reflection tree",
 }
 
+CLAIMED["C05"] = {
+    "level": "exploration",
+    "text": ("Totality, determinism and purity of one function over all models, parameter maps and interleavings is sampled, not decided: TransTrace.tla is a per-call history "
+             "monitor (no panic, same input => same SQL, parameters and error on every repetition, the caller's model and parameter map unchanged, within the time budget). Every "
+             "accepted text of the corpora and of the harness's input classes, builder-made models and parameter-heavy texts are translated 2 + 8 times (sequentially and from "
+             "goroutines sharing one kind mapper, under the race detector) with five kinds of parameter map; TLC validates every record."),
+    "design_ref": "DESIGN.md 4/C06+C05",
+    "note": "Exploration only: goroutine interleavings are whatever the scheduler produces under -race; memory is not measured; no exhaustiveness claim.",
+    "technique": "repeated and concurrent translation under the race detector with a TLA+ history monitor as the oracle",
+}
+
+CLAIMED["C06"] = {
+    "level": "model_checking",
+    "text": ("Hygiene.tla is an M-spec of the translator's name handling (alias table user symbol -> generated identifier, definitions keyed by generated identifier, raw-first "
+             "lookups, parameter namespace) run in lockstep under the user's naming and a canonical naming; TLC checks that both resolve every reference alike for every program and "
+             "naming up to the bound - it holds for the repaired parameter namespace and alias-only lookups, and fails, as pinned negative controls, for the shared table and for "
+             "raw-first lookups of user names that look generated.  HygieneGen.tla enumerates 3842 renaming patterns (generated-identifier names, the emitted SQL's own column and "
+             "table names, cross-namespace collisions); the harness applies them to every corpus query on the parsed model, translates the twins with the real translator and "
+             "TransTrace.tla checks: the twin translates whenever the query does, and its SQL equals the fresh-name twin's except at output aliases."),
+    "design_ref": "DESIGN.md 4/C06+C05",
+    "note": ("Renamings put at most two adversarial names on the first three variable symbols and one on the first two parameter symbols of a query; the quick tier applies the "
+             "single-name patterns to every query and samples the pairs.  One known finding (path variable named n0)."),
+    "technique": "TLC model checking of the alias-table mechanism + TLC-generated renaming patterns replayed on the real translator with twin comparison validated by a TLA+ monitor",
+}
+
 CLAIMED["C07"] = {
     "level": "exploration",
     "text": ("Faithfulness of text -> model over a 1000-line grammar is explored, not enumerated. The TLA+ part: CypherExpr/CypherExprCheck model-check "
@@ -221,5 +246,5 @@ CLAIMED["C08"] = {
 _NB = "not built yet in this round (design in DESIGN.md section 4)"
 NOT_APPLICABLE = {
     "C01": "needs the emitted SQL executed on PostgreSQL; no SQL engine exists in this sandbox and a TLA+ model of PostgreSQL would verify the model, not DAWGS (DESIGN.md section 5)",
-    "C02": _NB, "C03": _NB, "C04": _NB, "C05": _NB, "C06": _NB,
+    "C02": _NB, "C03": _NB, "C04": _NB, 
 }
